@@ -1193,7 +1193,7 @@ def run(ctx):
     ctx.notes["t1_as_written_counterexamples"] = t1_notes
 
     # ---- T3: renamed G2 problems, first use and 2-step histories --------------------------
-    n = max(12, int((300 if q else 4000) * scale))
+    n = max(12, int((300 if q else 3000) * scale))
     corpus = gen_corpus(rng, n, kws)
     pl = _Plan(100000000)
     sample = set(rng.sample(range(len(corpus)), min(nfresh, len(corpus))))
